@@ -21,7 +21,7 @@ def hex (b : Bytes) : String :=
 
 /-- comma-separated list of hex strings; `-` or empty = empty list; `_` = an empty element -/
 def unhexList (s : String) : List Bytes :=
-  if s == "-" || s == "" then [] else (s.splitOn ",").map fun x => if x == "_" then [] else unhex x
+  if s == "-" || s == "" || s == "=" then [] else (s.splitOn ",").map fun x => if x == "_" then [] else unhex x
 
 def hexList (l : List Bytes) : String :=
   if l.isEmpty then "-" else ",".intercalate (l.map fun b => if b.isEmpty then "_" else hex b)
